@@ -1,6 +1,7 @@
 import TRV.Proofs.Sound
 import TRV.Proofs.Drivers
 import TRV.Proofs.Engine
+import TRV.Proofs.Complete
 set_option linter.unusedSimpArgs false
 /-!
 # C02 — Recognition completeness: every genuine reply form yields its hop
@@ -17,8 +18,14 @@ Two layers.
   for the serial engine under the stated restriction that a window only sees replies to its own
   TTL).
 
-The byte-level side (every catalogue encoding decodes to such a view) is tied to the real drivers
-by the catalogue correspondence run (`TestC02`), form by form.
+Byte level (`c02_*_bytes`): for the ICMP-error family of the catalogue — time-exceeded /
+destination-unreachable from any router, ARBITRARY outer TOS/id/TTL/checksum, arbitrary ICMP code
+where the driver allows it, arbitrary 4 bytes after the ICMP checksum (unused field or RFC 4884
+length), quoted header with arbitrary rewritten TOS/TTL/checksum/flags and any quoted length ≥ 28,
+followed by ANY trailing bytes (28-byte quote, full datagram, RFC 4884 padding + extension objects)
+— the matcher models accept, for every TTL, identifier base and ISN (wrap-around included).
+Outer IPv4 options and the direct TCP/echo forms are tied to the real drivers by the catalogue
+correspondence run (`TestC02`), form by form, not proved.
 -/
 namespace TRV.Props.C02
 open TRV TRV.Wire TRV.Drv TRV.Spec TRV.Proofs TRV.Engine
@@ -126,6 +133,78 @@ theorem c02_parallel_reported {min max : Nat} {outs : List ROut} {r : List (Opti
   have e : min + (p.ttl - min) = p.ttl := by omega
   rw [e, ← merge_eq_best]; exact hq1
 
+/-- ICMP/IPv4, bytes: see the module comment -/
+theorem c02_icmp4_te_bytes {s : IcmpSt} {t : Nat} {p : Sent}
+    {otos oid ottl ock code ick qtos qlen qid qff qttl qck ety ecode eck : Nat} {r rest4 extra : Bytes}
+    (hl : s.cfg.localA.length = 4) (htg : s.cfg.target.length = 4) (hr : r.length = 4) (hrest : rest4.length = 4)
+    (b1 : otos < 256) (b2 : oid < 65536) (b3 : ottl < 256) (b4 : code < 256)
+    (b5 : qtos < 256) (b6 : 28 ≤ qlen) (b7 : qlen < 65536) (b8 : qid < 65536) (b9 : qff < 65536) (b10 : qttl < 256)
+    (b11 : ety = 8 ∨ ety = 0) (b12 : ecode < 256) (b13 : s.cfg.echoId < 65536) (b14 : t < 65536)
+    (hsize : 28 + (28 + extra.length) ≤ 1024) (hlk : icmpLookup s t = some p) :
+    icmpRecv s (icmpMsg4 otos oid ottl ock r s.cfg.localA 11 code ick rest4
+        (rawHdr4 qtos qlen qid qff qttl 1 qck s.cfg.localA s.cfg.target ++
+          (([byte ety, byte ecode] ++ be16 eck ++ be16 s.cfg.echoId ++ be16 t) ++ extra))) =
+      .accept t r false p.time :=
+  icmp4_te_complete hl htg hr hrest b1 b2 b3 b4 b5 b6 b7 b8 b9 b10 b11 b12 b13 b14 hsize hlk
+
+/-- UDP/IPv4, bytes -/
+theorem c02_udp4_err_bytes {s : UdpSt} {p : Sent}
+    {otos oid ottl ock ty code ick qtos qlen qff qttl qck : Nat} {r rest4 w extra : Bytes}
+    (hl : s.cfg.localA.length = 4) (htg : s.cfg.target.length = 4) (hr : r.length = 4) (hrest : rest4.length = 4)
+    (hw : w.length = 4)
+    (b1 : otos < 256) (b2 : oid < 65536) (b3 : ottl < 256) (b4 : code < 256) (hty : (ty = 11 ∧ code = 0) ∨ ty = 3)
+    (b5 : qtos < 256) (b6 : 28 ≤ qlen) (b7 : qlen < 65536) (b8 : p.id < 65536) (b9 : qff < 65536) (b10 : qttl < 256)
+    (b11 : s.cfg.lport < 65536) (b12 : s.cfg.tport < 65536)
+    (hsize : 28 + (28 + extra.length) ≤ 1024) (hf : s.sent.find? (·.id = p.id) = some p) :
+    udpRecv s (icmpMsg4 otos oid ottl ock r s.cfg.localA ty code ick rest4
+        (rawHdr4 qtos qlen p.id qff qttl 17 qck s.cfg.localA s.cfg.target ++
+          ((be16 s.cfg.lport ++ be16 s.cfg.tport ++ w) ++ extra))) =
+      .accept p.ttl r (decide (r = s.cfg.target)) p.time :=
+  udp4_err_complete hl htg hr hrest hw b1 b2 b3 b4 hty b5 b6 b7 b8 b9 b10 b11 b12 hsize hf
+
+/-- TCP SYN, bytes -/
+theorem c02_tcp_te_bytes {s : TcpSt} {p : Sent}
+    {otos oid ottl ock ick qtos qlen qff qttl qck : Nat} {r rest4 extra : Bytes}
+    (hl : s.cfg.localA.length = 4) (htg : s.cfg.target.length = 4) (hr : r.length = 4) (hrest : rest4.length = 4)
+    (b1 : otos < 256) (b2 : oid < 65536) (b3 : ottl < 256)
+    (b5 : qtos < 256) (b6 : 28 ≤ qlen) (b7 : qlen < 65536) (b8 : p.id < 65536) (b9 : qff < 65536) (b10 : qttl < 256)
+    (b11 : s.cfg.lport < 65536) (b12 : s.cfg.tport < 65536) (b13 : p.seq < 4294967296)
+    (hsize : 28 + (28 + extra.length) ≤ 1024)
+    (hf : s.sent.find? (fun x => x.id = p.id ∧ x.seq = p.seq) = some p) :
+    tcpRecv s (icmpMsg4 otos oid ottl ock r s.cfg.localA 11 0 ick rest4
+        (rawHdr4 qtos qlen p.id qff qttl 6 qck s.cfg.localA s.cfg.target ++
+          ((be16 s.cfg.lport ++ be16 s.cfg.tport ++ be32 p.seq) ++ extra))) =
+      .accept p.ttl r false p.time :=
+  tcp_te_complete hl htg hr hrest b1 b2 b3 b5 b6 b7 b8 b9 b10 b11 b12 b13 hsize hf
+
+/-- SACK, bytes (every ISN, wrap-around included) -/
+theorem c02_sack_te_bytes {s : SackSt} {t : Nat} {p : Sent}
+    {otos oid ottl ock ick qtos qlen qid qff qttl qck : Nat} {r rest4 extra : Bytes}
+    (hl : s.cfg.localA.length = 4) (htg : s.cfg.target.length = 4) (hr : r.length = 4) (hrest : rest4.length = 4)
+    (b1 : otos < 256) (b2 : oid < 65536) (b3 : ottl < 256)
+    (b5 : qtos < 256) (b6 : 28 ≤ qlen) (b7 : qlen < 65536) (b8 : qid < 65536) (b9 : qff < 65536) (b10 : qttl < 256)
+    (b11 : s.cfg.lport < 65536) (b12 : s.cfg.tport < 65536) (b13 : s.cfg.isn < 4294967296) (b14 : t < 4294967296)
+    (hsize : 28 + (28 + extra.length) ≤ 1024) (hlk : sackLookup s t = some p) :
+    sackRecv s (icmpMsg4 otos oid ottl ock r s.cfg.localA 11 0 ick rest4
+        (rawHdr4 qtos qlen qid qff qttl 6 qck s.cfg.localA s.cfg.target ++
+          ((be16 s.cfg.lport ++ be16 s.cfg.tport ++ be32 ((s.cfg.isn + t) % 4294967296)) ++ extra))) =
+      .accept t r (decide (r = s.cfg.target)) p.time :=
+  sack_te_complete hl htg hr hrest b1 b2 b3 b5 b6 b7 b8 b9 b10 b11 b12 b13 b14 hsize hlk
+
+/-- non-vacuity of the byte-level theorems: a concrete RFC 4884 style reply (quote padded to 128
+    bytes + an extension object) for TTL 3 is accepted -/
+example :
+    let cfg : IcmpCfg := { localA := [192,0,2,2], target := [198,51,100,9], echoId := 0x1234, min := 1, max := 30 }
+    let st : IcmpSt := { cfg, sent := [{ ttl := 3, id := 0x1234, seq := 3, time := 100 }] }
+    icmpRecv st (icmpMsg4 0xc0 7 250 0xbeef [10,9,8,7] [192,0,2,2] 11 0 0 [0,32,0,0]
+      (rawHdr4 0 29 0x1234 0 1 1 0xabcd [192,0,2,2] [198,51,100,9] ++
+        (([byte 8, byte 0] ++ be16 0 ++ be16 0x1234 ++ be16 3) ++ (List.replicate 100 0 ++ [0x20,0,0,0,0,8,1,1,0,0x3e,0x81,1])))) =
+      .accept 3 [10,9,8,7] false 100 := by decide +kernel
+
+#print axioms c02_icmp4_te_bytes
+#print axioms c02_udp4_err_bytes
+#print axioms c02_tcp_te_bytes
+#print axioms c02_sack_te_bytes
 #print axioms c02_icmp4_te_view
 #print axioms c02_icmp4_echo_view
 #print axioms c02_udp4_view
